@@ -450,7 +450,8 @@ def verify_config(cname, cfg, concolic=True, timeout_ms=None):
         return _verify_native(c, cname, cfg, Pnat, snap_n)
     res = {'contract': cname, 'cfg': cfg, 'paths': 0, 'obligations': [], 'undecided_paths': [],
            'concolic': 0, 'concolic_skipped': 0, 'checker_errors': [], 'native_failures': [],
-           'solver_s': 0.0, 'assumed': set(), 'notes': [], 'exc_paths': 0, 'clauses_reached': {}, 'fp_exact_proved': 0, 'fp_approx': 0}
+           'solver_s': 0.0, 'assumed': set(), 'notes': [], 'exc_paths': 0, 'clauses_reached': {}, 'fp_exact_proved': 0, 'fp_approx': 0,
+           'funcs': set()}
     prefix = []
     meta = {}
     while True:
@@ -519,6 +520,7 @@ def verify_config(cname, cfg, concolic=True, timeout_ms=None):
         res['fp_exact_proved'] += ctx.fp_exact_proved
         res['fp_approx'] += ctx.fp_approx
         res['assumed'] |= ctx.assumed_used
+        res['funcs'] |= ctx.funcs_entered
         for n in ctx.notes:
             if n not in res['notes'] and len(res['notes']) < 20:
                 res['notes'].append(n)
@@ -552,6 +554,7 @@ def verify_config(cname, cfg, concolic=True, timeout_ms=None):
         res['bounded_evaluations'] = res.get('bounded_evaluations', 0) + ev
         res['bounded_fallback'] = {'evaluations': ev, 'failure': hit}
     res['assumed'] = sorted(res['assumed'])
+    res['funcs'] = sorted(res['funcs'])
     res['wall_s'] = time.time() - t0
     core.CTX = None
     return res
